@@ -1,5 +1,5 @@
 // C10 — garbage collection removes exactly the expired and over-limit data.
-// Exhaustive enumeration of small stores; Store.Gc on the real store; stores of up to 3 (thorough: all) data also with every expiry mark set twice (first another duration) and as a text metric whose data were re-assigned their own value at the update time; a
+// Exhaustive enumeration of small stores; Store.Gc on the real store; stores of up to 3 (thorough: all) data also with every expiry mark set twice (first another duration) as a text metric whose data were re-assigned their own value at the update time, and after a reload with an unchanged declaration (Store.Add take-over) before the collection; a
 // set-valued reference decides which survivor sets are admissible.
 package main
 
@@ -20,7 +20,19 @@ type dat struct {
 	expiry int // minutes, 0 = none
 }
 
-var ages = []int{150, 90, 30}
+var ages = []int{150, 90, 30, 31, 32}
+
+// ageDur: ages are minutes, except 31 and 32, which are 30 minutes plus 300 / 600 ms: with the base time ending
+// in .9 s these three stamps fall into one wall-clock second and differ only below the second
+func ageDur(a int) time.Duration {
+	switch a {
+	case 31:
+		return 30*time.Minute + 300*time.Millisecond
+	case 32:
+		return 30*time.Minute + 600*time.Millisecond
+	}
+	return time.Duration(a) * time.Minute
+}
 var expiries = []int{0, 60, 120}
 
 type store struct {
@@ -86,7 +98,7 @@ func check(c *vlib.Ctx, limit int, data []dat, now time.Time, mode string) {
 	m.Limit = limit
 	for i, d := range data {
 		dd, _ := m.GetDatum(fmt.Sprintf("d%d", i))
-		ts := now.Add(-time.Duration(d.age) * time.Minute)
+		ts := now.Add(-ageDur(d.age))
 		if mode == "text" {
 			// written long ago, then assigned the same text again at its real update time
 			datum.SetString(dd, fmt.Sprintf("v%d", i), now.Add(-200*time.Minute))
@@ -105,7 +117,7 @@ func check(c *vlib.Ctx, limit int, data []dat, now time.Time, mode string) {
 	by := metrics.NewMetric("bystander", "prog", metrics.Counter, metrics.Int, "k")
 	for i, a := range ages {
 		dd, _ := by.GetDatum(fmt.Sprintf("b%d", i))
-		datum.SetInt(dd, int64(7+i), now.Add(-time.Duration(a)*time.Minute))
+		datum.SetInt(dd, int64(7+i), now.Add(-ageDur(a)))
 	}
 	tx := metrics.NewMetric("txt", "other", metrics.Text, metrics.String)
 	td, _ := tx.GetDatum()
@@ -113,6 +125,14 @@ func check(c *vlib.Ctx, limit int, data []dat, now time.Time, mode string) {
 	_ = s.Add(m)
 	_ = s.Add(by)
 	_ = s.Add(tx)
+	if mode == "reloaded" {
+		// the program was reloaded with an unchanged declaration before the collection: the data, their stamps
+		// and their expiry marks are taken over by the new metric
+		m2 := metrics.NewMetric("lim", "prog", metrics.Gauge, metrics.Int, "k")
+		m2.Limit = limit
+		_ = s.Add(m2)
+		m = m2
+	}
 	desc := make([]string, len(data))
 	for i, d := range data {
 		desc[i] = fmt.Sprintf("%d/%d", d.age, d.expiry)
@@ -167,7 +187,7 @@ func check(c *vlib.Ctx, limit int, data []dat, now time.Time, mode string) {
 	if s := m.VerifConsistent(); s != "" {
 		c.Report(key, "limited metric inconsistent after Gc: "+s, rep)
 	}
-	if len(by.LabelValues) != 3 || datum.GetInt(by.LabelValues[0].Value) != 7 || datum.GetInt(by.LabelValues[2].Value) != 9 {
+	if len(by.LabelValues) != len(ages) || datum.GetInt(by.LabelValues[0].Value) != 7 || datum.GetInt(by.LabelValues[2].Value) != 9 {
 		c.Report(key, "bystander metric changed", rep)
 	}
 	if len(tx.LabelValues) != 1 || datum.GetString(tx.LabelValues[0].Value) != "keep" {
@@ -210,13 +230,14 @@ func main() {
 	for n := 0; n <= maxData; n++ {
 		gen(nil, n)
 	}
-	now := time.Now()
+	now := time.Now().Truncate(time.Second).Add(900 * time.Millisecond)
 	vlib.Parallel(len(all), runtime.NumCPU(), func(i int) {
 		for _, l := range limits {
 			check(c, l, all[i], now, "plain")
 			if len(all[i]) <= 3 || c.Thorough() {
 				check(c, l, all[i], now, "remark")
 				check(c, l, all[i], now, "text")
+				check(c, l, all[i], now, "reloaded")
 			}
 		}
 		if i%9000 == 50 {
@@ -228,5 +249,5 @@ func main() {
 		}
 	})
 	c.Assume = []string{"Gc reads the wall clock; the harness places stamps 30/90/150 minutes before its own clock reading and expiries at 60/120 minutes, so clock drift below 30 minutes during the run cannot change any verdict"}
-	c.Finish("all stores with one limited metric (limit 0..3, thorough 0..4) holding 0..4 (thorough 5) data with every combination of age in {150,90,30} min (ties included) and expiry mark in {none,1h,2h}, plus an unlimited bystander and a text metric; Gc on the real store; stores of up to 3 (thorough: all) data also with every expiry mark set twice (first another duration) and as a text metric whose data were re-assigned their own value at the update time; survivors must equal initial − (n−limit oldest, ties either way) − expired, order, values and marks unchanged. distinct_nontrivial = distinct stores where Gc removed something")
+	c.Finish("all stores with one limited metric (limit 0..3, thorough 0..4) holding 0..4 (thorough 5) data with every combination of age in {150, 90, 30, 30+0.3 s, 30+0.6 s} min (ties included; the last three stamps lie within one second) and expiry mark in {none,1h,2h}, plus an unlimited bystander and a text metric; Gc on the real store; stores of up to 3 (thorough: all) data also with every expiry mark set twice (first another duration) as a text metric whose data were re-assigned their own value at the update time, and after a reload with an unchanged declaration (Store.Add take-over) before the collection; survivors must equal initial − (n−limit oldest, ties either way) − expired, order, values and marks unchanged. distinct_nontrivial = distinct stores where Gc removed something")
 }
